@@ -153,6 +153,43 @@ func nearAddr(r *u.Rng, a tokAddr) tokAddr {
 	return b
 }
 
+// tokenTable: issuing address family x presenting address (same / same host other representation / other host of
+// every family) x token kind x age on both sides of the lifetime x VerifySourceAddress, plus the basic forgeries.
+func tokenTable() []tokFix {
+	v4 := tokAddr{udp: true, ip: []byte{10, 0, 0, 1}, port: 1000}
+	v4b := tokAddr{udp: true, ip: []byte{10, 0, 0, 2}, port: 1000}
+	v4mapped := tokAddr{udp: true, ip: []byte(net.IPv4(10, 0, 0, 1)), port: 1000} // ::ffff:10.0.0.1, 16 bytes
+	v4mappedB := tokAddr{udp: true, ip: []byte(net.IPv4(10, 0, 0, 2)), port: 1000}
+	v6 := tokAddr{udp: true, ip: append([]byte{0x20, 0x01, 0x0d, 0xb8}, make([]byte, 12)...), port: 1000}
+	v6b := tokAddr{udp: true, ip: append([]byte{0x20, 0x01, 0x0d, 0xb8}, append(make([]byte, 11), 1)...), port: 1000}
+	str := tokAddr{s: "10.0.0.1:1000"}
+	strB := tokAddr{s: "10.0.0.2:1000"}
+	fam := []tokAddr{v4, v4mapped, v6, str}
+	others := []tokAddr{v4, v4b, v4mapped, v4mappedB, v6, v6b, str, strB}
+	var t []tokFix
+	for _, isRetry := range []bool{true, false} {
+		for _, a0 := range fam {
+			for _, ageSel := range []int{0, 2, 4} { // fresh, exactly at the lifetime, one nanosecond past it
+				for _, vs := range []int{1, -1} {
+					t = append(t, tokFix{isRetry, a0, a0, 15, ageSel, vs})
+				}
+			}
+			samePortOther := a0
+			samePortOther.port = 2000 // another port of the same address
+			t = append(t, tokFix{isRetry, a0, samePortOther, 15, 0, 1})
+			for _, a1 := range others {
+				if !sameRepr(a0, a1) {
+					t = append(t, tokFix{isRetry, a0, a1, 15, 0, 1}) // fresh token, other address
+				}
+			}
+			for _, m := range []int{0, 1, 3, 5, 6} { // truncated, bit flip, foreign key, extended, empty
+				t = append(t, tokFix{isRetry, a0, a0, m, 0, 1})
+			}
+		}
+	}
+	return t
+}
+
 func runToken(w *bufio.Writer, seed uint64, n int, _ []string) {
 	r := u.NewRng(seed)
 	old := crand.Reader
@@ -164,8 +201,13 @@ func runToken(w *bufio.Writer, seed uint64, n int, _ []string) {
 		copy(k1[:], r.Bytes(32))
 		copy(k2[:], r.Bytes(32))
 		g1, g2 := handshake.NewTokenGenerator(k1), handshake.NewTokenGenerator(k2)
+		// the decision table of validateToken / handleInitialImpl, every address family, both token kinds
+		for i, fx := range tokenTable() {
+			fx := fx
+			tokenCase(w, r.Fork(), 1000000+i, g1, g2, dist, &fx)
+		}
 		for i := 0; i < n; i++ {
-			tokenCase(w, r.Fork(), i, g1, g2, dist)
+			tokenCase(w, r.Fork(), i, g1, g2, dist, nil)
 		}
 		nflip := 3
 		if os.Getenv("VERIF_TIER") == "thorough" {
@@ -175,7 +217,7 @@ func runToken(w *bufio.Writer, seed uint64, n int, _ []string) {
 			tokenFlipAll(w, r.Fork(), g1, g2, dist)
 		}
 	})
-	keys := []string{"cases", "nontrivial", "kind:retry", "kind:newtoken", "mut:none", "mut:truncate", "mut:bitflip", "mut:foreign-key", "mut:random", "mut:append", "mut:empty",
+	keys := []string{"cases", "table", "nontrivial", "kind:retry", "kind:newtoken", "mut:none", "mut:truncate", "mut:bitflip", "mut:foreign-key", "mut:random", "mut:append", "mut:empty",
 		"mut:sealed-garbage", "mut:sealed-trailing", "mut:crafted-future", "decode:nil", "decode:error", "decode:token", "valid", "invalid:address", "invalid:expired", "age:boundary", "age:boundary+1",
 		"addr:same", "addr:other-port", "addr:other-repr", "addr:other", "outcome:dropped", "outcome:invalid-token", "outcome:retry", "outcome:accept-verified", "outcome:accept-unverified", "flip-all:tokens", "flip-all:bits"}
 	for _, k := range keys {
@@ -183,7 +225,16 @@ func runToken(w *bufio.Writer, seed uint64, n int, _ []string) {
 	}
 }
 
-func tokenCase(w *bufio.Writer, r *u.Rng, idx int, g1, g2 *handshake.TokenGenerator, dist map[string]int) {
+// tokFix pins the choices of one case (fixed decision-table cases: detection must not depend on luck).
+type tokFix struct {
+	isRetry   bool
+	a0, a1    tokAddr
+	mutSel    int // value of the mutation switch (8.. = none)
+	ageSel    int // value of the age switch: 0 zero, 1 life-1, 2 life, 4 life+1, 6 2*life+1s
+	verifySrc int
+}
+
+func tokenCase(w *bufio.Writer, r *u.Rng, idx int, g1, g2 *handshake.TokenGenerator, dist map[string]int, fx *tokFix) {
 	var human []string
 	failed := map[string]bool{}
 	monfail := func(key, desc string) {
@@ -207,6 +258,12 @@ func tokenCase(w *bufio.Writer, r *u.Rng, idx int, g1, g2 *handshake.TokenGenera
 	// issue
 	isRetry := r.Bool()
 	a0 := randAddr(r)
+	if fx != nil {
+		isRetry, a0 = fx.isRetry, fx.a0
+		maxTokenAge, hsIdle = time.Hour, 5*time.Second
+		retryAge = 2 * hsIdle
+		dist["table"]++
+	}
 	odcid := r.Bytes(int(r.Pick(0, 4, 8, 8, 12, 20)))
 	rscid := r.Bytes(int(r.Pick(0, 4, 4, 8, 20)))
 	rtt := time.Duration(r.Pick(0, 1, 999, 1000, 1500, 33_000_000, 250_000_000, 7_000_000_000)) // ns
@@ -230,7 +287,11 @@ func tokenCase(w *bufio.Writer, r *u.Rng, idx int, g1, g2 *handshake.TokenGenera
 	// mutate
 	presented := append([]byte{}, tok...)
 	mut := "none"
-	switch r.Intn(16) {
+	mutSel := r.Intn(16)
+	if fx != nil {
+		mutSel = fx.mutSel
+	}
+	switch mutSel {
 	case 0:
 		cut := int(r.Pick(1, 2, 31, 32, 33, int64(len(tok)-1), int64(len(tok)-16), int64(r.Range(1, len(tok)-1))))
 		presented = presented[:cut]
@@ -291,12 +352,19 @@ func tokenCase(w *bufio.Writer, r *u.Rng, idx int, g1, g2 *handshake.TokenGenera
 	default:
 		a1 = nearAddr(r, a0)
 	}
+	if fx != nil {
+		a1 = fx.a1
+	}
 	life := maxTokenAge
 	if isRetry {
 		life = retryAge
 	}
 	var age time.Duration
-	switch r.Intn(8) {
+	ageSel := r.Intn(8)
+	if fx != nil {
+		ageSel = fx.ageSel
+	}
+	switch ageSel {
 	case 0:
 		age = 0
 	case 1:
@@ -322,6 +390,10 @@ func tokenCase(w *bufio.Writer, r *u.Rng, idx int, g1, g2 *handshake.TokenGenera
 	}
 	verifySrc := int(r.Pick(-1, 0, 1, 1))
 	dcid := r.Bytes(int(r.Pick(0, 4, 7, 8, 8, 12, 20)))
+	if fx != nil {
+		verifySrc = fx.verifySrc
+		dcid = []byte{1, 2, 3, 4, 5, 6, 7, 8}
+	}
 	human = append(human, fmt.Sprintf("present(from=%s,age=%d,maxTokenAge=%d,hsIdle=%d,verifySrc=%d,dcid=%x,token=%x)", a1, age, maxTokenAge, hsIdle, verifySrc, dcid, presented))
 
 	// ---- implementation ----
